@@ -30,6 +30,11 @@ pub struct MasterScript {
     pub mode: u8,
     /// announces bear the instance's own clock identity
     pub own_identity: bool,
+    /// ... and a port number below the receiving port's (another port of the same boundary clock on
+    /// this segment): the receiving port must not become master, its foreign master bookkeeping
+    /// goes on as usual
+    #[serde(default)]
+    pub lower_port: bool,
 }
 
 #[derive(Clone, Debug, serde::Serialize, serde::Deserialize)]
@@ -116,7 +121,7 @@ pub fn run_case(rep: &mut Report, case: &Case, verbose: bool) -> bool {
         }
     }
     evs.sort_by_key(|e| (e.0, e.1));
-    let pids: Vec<Pid> = case.masters.iter().map(|m| Pid { clock: if m.own_identity { own_clock } else { clock_id(m.id).0 }, port: if m.own_identity { 9 } else { 1 } }).collect();
+    let pids: Vec<Pid> = case.masters.iter().map(|m| Pid { clock: if m.own_identity { own_clock } else { clock_id(m.id).0 }, port: if m.own_identity { if m.lower_port { 0 } else { 9 } } else { 1 } }).collect();
     let mut receipts: Vec<Receipt> = vec![];
     let mut snaps: Vec<Snap> = vec![];
     for (t, _, ev) in evs {
@@ -197,7 +202,16 @@ pub fn run_case(rep: &mut Report, case: &Case, verbose: bool) -> bool {
                 let m = &case.masters[mi];
                 m.steps < 255 && !m.own_identity && receipts.iter().filter(|r| r.master == mi && r.t <= s.t && s.t - r.t < window).count() >= 2
             });
-            if !any {
+            // a lower-numbered port of the own instance heard within the last two intervals keeps
+            // the port out of the master state by itself
+            let sibling = (0..case.masters.len()).any(|mi| {
+                let m = &case.masters[mi];
+                m.own_identity && m.lower_port && receipts.iter().any(|r| r.master == mi && r.t <= s.t && s.t - r.t <= 2 * TICKS_PER_I)
+            });
+            if sibling {
+                rep.ev("passive_by_own_lower_port");
+            }
+            if !any && !sibling {
                 rep.violation("C06|N1|passive-without-qualified-master", &format!("BMCA at t={}: port Passive although no master has two receipts in the window", s.t), replay.clone());
             }
         }
@@ -280,7 +294,7 @@ pub fn run_case(rep: &mut Report, case: &Case, verbose: bool) -> bool {
 
 fn single(pattern: u32, phase: u64, offset: u64, seq_base: u16, seed: u64) -> Case {
     Case {
-        masters: vec![MasterScript { id: 0x10, p1: 100, pattern, offset, seq_base, steps: 0, mode: 0, own_identity: false }],
+        masters: vec![MasterScript { id: 0x10, p1: 100, pattern, offset, seq_base, steps: 0, mode: 0, own_identity: false, lower_port: false }],
         intervals: 16,
         bmca_phase: phase,
         own_class: 248,
@@ -366,6 +380,21 @@ pub fn run(rep: &mut Report, tier: &str, seed: u64, shard: (u32, u32), replay: O
                 steps: [0u16, 0, 0, 1, 254, 255, 256][rng.gen_range(0..7)],
                 mode: [0u8, 0, 0, 1, 2, 3][rng.gen_range(0..6)],
                 own_identity: rng.gen_bool(0.05),
+                lower_port: false,
+            });
+        }
+        if rng.gen_bool(0.15) {
+            // a sibling port of the own instance announcing in (nearly) every interval
+            masters.push(MasterScript {
+                id: 0x50,
+                p1: 128,
+                pattern: if rng.gen_bool(0.7) { 0xffff } else { 0xffff & !(1 << rng.gen_range(0..16)) },
+                offset: rng.gen_range(1..63),
+                seq_base: rng.gen(),
+                steps: 0,
+                mode: 0,
+                own_identity: true,
+                lower_port: true,
             });
         }
         let case = Case { masters, intervals: 16, bmca_phase: phases[rng.gen_range(0..4)], own_class: if rng.gen_bool(0.25) { 6 } else { 248 }, seed: rng.gen() };
